@@ -35,18 +35,19 @@
 (*         position into the seek field as the code does (F16a) and TLC    *)
 (*         refutes Apply(old, ChunkedB(old, new)) = new.                   *)
 (***************************************************************************)
-EXTENDS Integers, Sequences, TLC
+EXTENDS Integers, Sequences, SequencesExt
 
-\* Now(v) = v.  TLC passes operator arguments unevaluated; in a recursive operator that leaves a chain of pending
-\* arguments which is re-evaluated at every level (quadratic).  TLCEval makes TLC evaluate the argument once.
-Now(v) == TLCEval(v)
+\* Loops are written as FoldLeft(step, initial state, sequence) (SequencesExt; TLC runs it as a Java loop): a
+\* RECURSIVE operator costs TLC time quadratic in the recursion depth, which matters for control blocks of
+\* thousands of entries.  FoldLeft(op, b, <<e1, .., en>>) = op(.. op(op(b, e1), e2) .., en).
+Upto(n) == [i \in 1..n |-> i]
 
 \* ---- results -------------------------------------------------------------
 Fail      == [ok |-> FALSE, out |-> <<>>]
 Good(out) == [ok |-> TRUE, out |-> out]
 
 \* ---- decoding (part 1) ----------------------------------------------------
-Sub(b, from, n) == [i \in 1..n |-> b[from + i - 1]]           \* n elements of b starting at 1-based index `from`
+Sub(b, from, n) == SubSeq(b, from, from + n - 1)                \* n elements of b starting at 1-based index `from`
 
 \* TLC integers are 32 bit: an 8-byte field is decoded only when its magnitude is below 2^24 (files judged byte by
 \* byte are far shorter); anything else is reported as outside the modelled range, never guessed.
@@ -69,13 +70,10 @@ CtrlOf(cb)      == [k \in 1..(Len(cb) \div 24) |->
 Abs(v) == IF v < 0 THEN 0 - v ELSE v
 CMin(a, b) == IF a < b THEN a ELSE b
 \* positions stay inside TLC's integers: every value below 2^24 and the total travel of oldpos below 2^29
-RECURSIVE Travel(_, _, _)
-Travel(ctrl, k, acc) ==
-  IF k > Len(ctrl) \/ acc >= 536870912 THEN acc
-  ELSE Travel(ctrl, Now(k + 1), Now(acc + Abs(ctrl[k][1]) + Abs(ctrl[k][3])))
+Travel(ctrl) == FoldLeft(LAMBDA acc, c : IF acc >= 536870912 THEN acc ELSE acc + Abs(c[1]) + Abs(c[3]), 0, ctrl)
 Decidable(ctrl) ==
   /\ \A k \in 1..Len(ctrl) : Abs(ctrl[k][1]) < 16777216 /\ Abs(ctrl[k][2]) < 16777216 /\ Abs(ctrl[k][3]) < 16777216
-  /\ Travel(ctrl, 1, 0) < 536870912
+  /\ Travel(ctrl) < 536870912
 
 \* ---- bspatch (part 1) -----------------------------------------------------
 \* A patch P = [ctrl |-> sequence of <<x, y, z>>, diff |-> bytes, extra |-> bytes, size |-> new_size]
@@ -97,24 +95,20 @@ Entry(old, P, s, c) ==
                [st |-> IF Len(o2) = P.size THEN "ok" ELSE "run",
                 out |-> o2, op |-> s.op + x + z, dp |-> s.dp + x, ep |-> s.ep + y]
 
-RECURSIVE RunFrom(_, _, _, _)
-RunFrom(old, P, s, k) ==
-  IF k > Len(P.ctrl) \/ s.st # "run" THEN s ELSE RunFrom(old, P, Now(Entry(old, P, s, P.ctrl[k])), Now(k + 1))
-
 Apply(old, P) ==
-  LET s == RunFrom(old, P, Start(P), 1)
+  LET s == FoldLeft(LAMBDA st, c : Entry(old, P, st, c), Start(P), P.ctrl)
   IN IF s.st = "ok" THEN Good(s.out) ELSE Fail       \* "run" = the control block ended before new_size bytes were made
 
 \* The same function on lengths only: does bspatch succeed, given the block lengths?
-RECURSIVE LenFrom(_, _, _, _, _, _, _)
-LenFrom(ctrl, dlen, elen, size, k, np, used) ==      \* used = <<diff consumed, extra consumed>>
-  IF np = size THEN TRUE
-  ELSE IF k > Len(ctrl) THEN FALSE
-  ELSE LET x == ctrl[k][1]
-           y == ctrl[k][2]
-       IN IF x < 0 \/ y < 0 \/ np + x + y > size \/ used[1] + x > dlen \/ used[2] + y > elen THEN FALSE
-          ELSE LenFrom(ctrl, dlen, elen, size, Now(k + 1), Now(np + x + y), Now(<<used[1] + x, used[2] + y>>))
-ApplyLen(ctrl, dlen, elen, size) == LenFrom(ctrl, dlen, elen, size, 1, 0, <<0, 0>>)
+LenEntry(dlen, elen, size, s, c) ==                  \* s = [st, np, dp, ep]: Entry without the bytes
+  IF s.st # "run" THEN s
+  ELSE IF c[1] < 0 \/ c[2] < 0 \/ s.np + c[1] + c[2] > size \/ s.dp + c[1] > dlen \/ s.ep + c[2] > elen
+       THEN [s EXCEPT !.st = "err"]
+  ELSE [st |-> IF s.np + c[1] + c[2] = size THEN "ok" ELSE "run", np |-> s.np + c[1] + c[2],
+        dp |-> s.dp + c[1], ep |-> s.ep + c[2]]
+ApplyLen(ctrl, dlen, elen, size) ==
+  FoldLeft(LAMBDA s, c : LenEntry(dlen, elen, size, s, c),
+           [st |-> IF size = 0 THEN "ok" ELSE "run", np |-> 0, dp |-> 0, ep |-> 0], ctrl).st = "ok"
 
 \* ---- the patcher as a state machine (part 2) ------------------------------
 \* pc: "diff" -> "extra" -> "seek" -> next entry ... -> "done"; status "run" | "ok" | "err"
@@ -154,36 +148,38 @@ Patch(ctrl, diff, extra, size) == [ctrl |-> ctrl, diff |-> diff, extra |-> extra
 \* build_simple_patch: one entry, everything is extra data
 SimpleB(new) == Patch(<<<<0, Len(new), 0>>>>, <<>>, new, Len(new))
 
-RECURSIVE MatchLen(_, _, _, _, _)
 MatchLen(old, new, op, np, max) ==        \* find_matching_chunk: equal bytes from (op, np), at most max
-  IF max = 0 \/ old[op + 1] # new[np + 1] THEN 0 ELSE 1 + MatchLen(old, new, Now(op + 1), Now(np + 1), Now(max - 1))
+  LET firstDiff == SelectInSeq(Upto(max), LAMBDA i : old[op + i] # new[np + i])      \* 0 = none
+  IN IF firstDiff = 0 THEN max ELSE firstDiff - 1
 
 \* build_chunked_patch: forward-only matching.  maxBlock = max_diff_block_size, minMatch = 4 and extraChunk = 256
 \* in the code.  absSeek = TRUE: the code as it is (extra entries carry the absolute old position as their seek).
-RECURSIVE ChunkedFrom(_, _, _, _, _, _, _, _)
-ChunkedFrom(old, new, cfg, op, np, ctrl, diff, extra) ==
-  IF np >= Len(new) THEN Patch(ctrl, diff, extra, Len(new))
-  ELSE LET lim == CMin(cfg.maxBlock, CMin(IF Len(old) > op THEN Len(old) - op ELSE 0, Len(new) - np))
-           n   == MatchLen(old, new, op, np, lim)
+ChunkedIter(old, new, cfg, s) ==          \* one iteration of the builder's `while new_pos < new.len()`
+  IF s.np >= Len(new) THEN s
+  ELSE LET lim == CMin(cfg.maxBlock, CMin(IF Len(old) > s.op THEN Len(old) - s.op ELSE 0, Len(new) - s.np))
+           n   == MatchLen(old, new, s.op, s.np, lim)
        IN IF n >= cfg.minMatch
-          THEN ChunkedFrom(old, new, cfg, Now(op + n), Now(np + n), Now(Append(ctrl, <<n, 0, 0>>)),
-                           Now(diff \o [i \in 1..n |-> (new[np + i] - old[op + i] + 256) % 256]), extra)
-          ELSE LET e == CMin(Len(new) - np, cfg.extraChunk) IN
-               ChunkedFrom(old, new, cfg, op, Now(np + e), Now(Append(ctrl, <<0, e, IF cfg.absSeek THEN op ELSE 0>>)),
-                           diff, Now(extra \o Sub(new, np + 1, e)))
-ChunkedB(old, new, cfg) == ChunkedFrom(old, new, cfg, 0, 0, <<>>, <<>>, <<>>)
+          THEN [s EXCEPT !.op = @ + n, !.np = @ + n, !.ctrl = Append(@, <<n, 0, 0>>),
+                         !.diff = @ \o [i \in 1..n |-> (new[s.np + i] - old[s.op + i] + 256) % 256]]
+          ELSE LET e == CMin(Len(new) - s.np, cfg.extraChunk) IN
+               [s EXCEPT !.np = @ + e, !.ctrl = Append(@, <<0, e, IF cfg.absSeek THEN s.op ELSE 0>>),
+                         !.extra = @ \o Sub(new, s.np + 1, e)]
+ChunkedB(old, new, cfg) ==                \* every iteration consumes at least one byte of new: <= |new| iterations
+  LET s == FoldLeft(LAMBDA st, i : ChunkedIter(old, new, cfg, st),
+                    [op |-> 0, np |-> 0, ctrl |-> <<>>, diff |-> <<>>, extra |-> <<>>], Upto(Len(new)))
+  IN Patch(s.ctrl, s.diff, s.extra, Len(new))
 \* every builder refuses (returns Err) when it has no control entry to write: ControlBlock::with_entries
 Refuses(P) == P.ctrl = <<>>
 
 \* The shape F16a leaves in a control block: diff entries seek 0, extra entries "seek" to the number of old bytes
 \* consumed so far (= the sum of the diff sizes before them)
-RECURSIVE AbsShapeFrom(_, _, _)
-AbsShapeFrom(ctrl, k, consumed) ==
-  IF k > Len(ctrl) THEN TRUE
-  ELSE LET c == ctrl[k] IN
-       /\ \/ c[1] > 0 /\ c[2] = 0 /\ c[3] = 0
-          \/ c[1] = 0 /\ c[2] > 0 /\ c[3] = consumed
-       /\ AbsShapeFrom(ctrl, Now(k + 1), Now(consumed + c[1]))
-AbsSeekShape(ctrl) == AbsShapeFrom(ctrl, 1, 0) /\ \E k \in 1..Len(ctrl) : ctrl[k][3] # 0
+AbsShapeEntry(s, c) ==                    \* s = [ok, consumed]
+  [ok |-> s.ok /\ (\/ c[1] > 0 /\ c[2] = 0 /\ c[3] = 0
+                   \/ c[1] = 0 /\ c[2] > 0 /\ c[3] = s.consumed),
+   consumed |-> s.consumed + c[1]]
+AbsSeekShape(ctrl) ==
+  /\ \A k \in 1..Len(ctrl) : ctrl[k][1] >= 0 /\ ctrl[k][1] < 16777216
+  /\ FoldLeft(AbsShapeEntry, [ok |-> TRUE, consumed |-> 0], ctrl).ok
+  /\ \E k \in 1..Len(ctrl) : ctrl[k][3] # 0
 ZeroSeeks(ctrl) == [k \in 1..Len(ctrl) |-> <<ctrl[k][1], ctrl[k][2], 0>>]
 =============================================================================
